@@ -170,47 +170,68 @@ theorem filterMap_id_length (l : List (Option Bytes)) : (l.filterMap id).length 
   | nil => rfl
   | cons a t ih => cases a <;> simp [List.filterMap_cons, List.filter_cons, ih]
 
+theorem repl_head (p stripe : Nat) (data : List Bytes) (avail : List (Option Bytes)) (hl : data.length = 1)
+    (hal : avail.length = (⟨1, p, stripe⟩ : Cfg).n)
+    (htrue : ∀ k, k < (⟨1, p, stripe⟩ : Cfg).n → avail.getD k none = none ∨
+      avail.getD k none = some ((data ++ replCode.parity 1 p data).getD k []))
+    (hcount : 1 ≤ (avail.filter Option.isSome).length) :
+    ∃ x, data = [x] ∧ (avail.filterMap id).head? = some x := by
+  cases data with
+  | nil => simp at hl
+  | cons x t =>
+    have ht : t = [] := by
+      cases t with
+      | nil => rfl
+      | cons _ _ => simp at hl
+    subst ht
+    refine ⟨x, rfl, ?_⟩
+    have hall : ∀ k, k < 1 + p → ([x] ++ replCode.parity 1 p [x]).getD k [] = x := by
+      intro k hk
+      simp only [replCode, List.headD_cons, List.getD_eq_getElem?_getD]
+      cases k with
+      | zero => rfl
+      | succ k =>
+        have hkp : k < p := by omega
+        simp [List.getElem?_replicate, hkp]
+    have hmem : ∀ y ∈ avail.filterMap id, y = x := by
+      intro y hy
+      rw [List.mem_filterMap] at hy
+      obtain ⟨o, ho, hoy⟩ := hy
+      obtain ⟨i, hi, hio⟩ := List.getElem_of_mem ho
+      have hi' : i < 1 + p := by simpa [hal, Cfg.n] using hi
+      have hg : avail.getD i none = o := by
+        rw [List.getD_eq_getElem?_getD, List.getElem?_eq_getElem hi, hio]; rfl
+      rcases htrue i (by simpa [Cfg.n] using hi') with h1 | h1
+      · rw [hg] at h1; subst h1; cases hoy
+      · rw [hg, hall i hi'] at h1; subst h1; simpa using hoy.symm
+    have hne : avail.filterMap id ≠ [] := by
+      intro he
+      have : (avail.filter Option.isSome).length = 0 := by
+        rw [← filterMap_id_length, he]; rfl
+      omega
+    cases hfm : avail.filterMap id with
+    | nil => exact absurd hfm hne
+    | cons y ys =>
+      have := hmem y (by rw [hfm]; exact List.mem_cons_self)
+      simp [this]
+
 theorem replCode_mds (p stripe : Nat) : MDS ⟨1, p, stripe⟩ replCode where
   reconstruct_ok := by
     intro data L avail hl _ hal htrue hcount
-    cases data with
-    | nil => simp at hl
-    | cons x t =>
-      have ht : t = [] := by
-        cases t with
-        | nil => rfl
-        | cons _ _ => simp at hl
-      subst ht
-      have hall : ∀ k, k < 1 + p → ([x] ++ replCode.parity 1 p [x]).getD k [] = x := by
-        intro k hk
-        simp only [replCode, List.headD_cons, List.getD_eq_getElem?_getD]
-        cases k with
-        | zero => rfl
-        | succ k =>
-          have hkp : k < p := by omega
-          simp [List.getElem?_replicate, hkp]
-      have hmem : ∀ y ∈ avail.filterMap id, y = x := by
-        intro y hy
-        rw [List.mem_filterMap] at hy
-        obtain ⟨o, ho, hoy⟩ := hy
-        obtain ⟨i, hi, hio⟩ := List.getElem_of_mem ho
-        have hi' : i < 1 + p := by simpa [hal, Cfg.n] using hi
-        have hg : avail.getD i none = o := by
-          rw [List.getD_eq_getElem?_getD, List.getElem?_eq_getElem hi, hio]; rfl
-        rcases htrue i (by simpa [Cfg.n] using hi') with h1 | h1
-        · rw [hg] at h1; subst h1; cases hoy
-        · rw [hg, hall i hi'] at h1; subst h1; simpa using hoy.symm
-      have hne : avail.filterMap id ≠ [] := by
-        intro he
-        have : (avail.filter Option.isSome).length = 0 := by
-          rw [← filterMap_id_length, he]; rfl
-        simp [Cfg.n] at hcount; omega
-      simp only [replCode]
-      cases hfm : avail.filterMap id with
-      | nil => exact absurd hfm hne
-      | cons y ys =>
-        have := hmem y (by rw [hfm]; exact List.mem_cons_self)
-        simp [this]
+    obtain ⟨x, hx, hh⟩ := repl_head p stripe data avail hl hal htrue hcount
+    subst hx
+    simp only [replCode, hh, Option.map_some]
+
+/-- … and it recomputes whole codewords (the hypothesis of the repaired heal path). -/
+theorem replCode_mdsAll (p stripe : Nat) : MDSAll ⟨1, p, stripe⟩ replCode where
+  reconstructAll_ok := by
+    intro data L avail hl _ hal htrue hcount
+    obtain ⟨x, hx, hh⟩ := repl_head p stripe data avail hl hal htrue hcount
+    subst hx
+    simp only [replCode, hh, Option.map_some, List.headD_cons]
+    congr 1
+    rw [Nat.add_comm, List.replicate_succ]
+    rfl
 
 theorem repl_wf (p : Nat) (hp : 1 + p < 65536) : WF ⟨1, p, 1024⟩ replCode PartStore.toyHash where
   d_pos := Nat.le_refl 1
